@@ -7,7 +7,7 @@ from ..report import rule
 from .. import pm, norm, cfg as cfgmod, guards
 from ..typestate import TypeState
 from ..traces import Tracer, fmt
-from ..model import AnalysisError
+from ..model import AnalysisError, self_attr_assignments
 from .common import calls_of, find_calls, returns_of, is_abstract_body, bind_args
 
 FT = "filedb.filetables."
@@ -674,3 +674,197 @@ def c20_r9(ctx):
                detail="state recorded for a key that is then rejected" if bad else "", path=cfgmod.path_text(bad) if bad else None)
     if n < 2:
         raise AnalysisError("ordered hash writers vanished")
+
+
+def _is_buffer_ctor(v):
+    return isinstance(v, ast.Call) and not v.args and not v.keywords and (
+        (isinstance(v.func, ast.Name) and v.func.id in ("BytesIO", "StringIO")) or
+        (isinstance(v.func, ast.Attribute) and v.func.attr in ("BytesIO", "StringIO")))
+
+
+@rule("C20", "R10", "K2", "a buffer that is rewound but never truncated is read back only up to its cursor",
+      min_instances=1, also=("C06", "C08", "C18"),
+      clause="For every object attribute that a class creates as an empty BytesIO/StringIO: when some method rewinds it with seek(0) and "
+             "no method truncates it, the bytes after the cursor are left over from an earlier fill. Every getvalue() of such a buffer "
+             "must therefore be cut at a bound that was read from the same buffer's tell() with no write/seek of the buffer in between "
+             "(CompoundWriter.SubStream.write: `bio.getvalue()[:buflen]`). Whole-value reads of a buffer that is never rewound, or that "
+             "is truncated/replaced on rewind, satisfy the rule. Decides the shape of the bound, not the bytes.")
+def c20_r10(ctx):
+    prog = ctx.prog
+    n = 0
+    for c in sorted(prog.classes.values(), key=lambda k: k.qualname):
+        if c.module.name.startswith(("whoosh.lang", "whoosh.support")):
+            continue
+        bufs = set()
+        for f in c.methods.values():
+            for st in ast.walk(f.node):
+                if isinstance(st, ast.Assign) and _is_buffer_ctor(st.value):
+                    for t in st.targets:
+                        if isinstance(t, ast.Attribute) and isinstance(t.value, ast.Name) and t.value.id == "self":
+                            bufs.add(t.attr)
+        for attr in sorted(bufs):
+            P = "self." + attr
+            n += 1
+
+            def calls_on(f, names):
+                out = []
+                for x in ast.walk(f.node):
+                    if isinstance(x, ast.Call) and isinstance(x.func, ast.Attribute) and x.func.attr in names \
+                            and norm.deep_canon(x.func.value, f.node) == P:
+                        out.append(x)
+                return out
+            rewinds, truncs, reads = [], [], []
+            for f in c.methods.values():
+                ctx.saw(f)
+                for x in calls_on(f, ("seek",)):
+                    if x.args and isinstance(x.args[0], ast.Constant) and x.args[0].value == 0 and (
+                            len(x.args) == 1 or (isinstance(x.args[1], ast.Constant) and x.args[1].value == 0)):
+                        rewinds.append((f, x))
+                truncs += [(f, x) for x in calls_on(f, ("truncate",))]
+                reads += [(f, x) for x in calls_on(f, ("getvalue", "getbuffer"))]
+            if not rewinds or truncs:
+                ctx.ob("%s.%s" % (c.short, attr), True,
+                       "buffer is %s: its whole value is its content" % ("truncated when reused" if truncs else "never rewound"),
+                       loc=c.loc)
+                continue
+            if not reads:
+                ctx.ob("%s.%s" % (c.short, attr), True, "rewound buffer is never read back as a whole", loc=c.loc)
+            for f, x in reads:
+                parents = {}
+                for p in ast.walk(f.node):
+                    for ch in ast.iter_child_nodes(p):
+                        parents[id(ch)] = p
+                par = parents.get(id(x))
+                bound = None
+                if isinstance(par, ast.Subscript) and par.value is x and isinstance(par.slice, ast.Slice) \
+                        and par.slice.upper is not None and par.slice.step is None \
+                        and (par.slice.lower is None or (isinstance(par.slice.lower, ast.Constant) and par.slice.lower.value == 0)):
+                    bound = par.slice.upper
+                ok = bound is not None and norm.deep_canon(bound, f.node) == P + ".tell()"
+                detail = ""
+                path = None
+                if bound is None:
+                    detail = "%s is rewound with seek(0) in %s and never truncated, but its whole value is used here: bytes of an " \
+                             "earlier fill follow the cursor" % (P, rewinds[0][0].short)
+                elif not ok:
+                    detail = "the bound %s is not the buffer's own tell()" % norm.canon(bound)
+                else:
+                    # the bound must still be the cursor: no write/seek of the buffer between the tell() and this read
+                    g = cfgmod.cfg_of(f, exc_edges=False)
+
+                    def has(node, pred):
+                        return any(pred(y) for e in cfgmod.node_exprs(node) for y in ast.walk(e))
+                    tells = [y for y in g.nodes if has(y, lambda z: isinstance(z, ast.Call) and isinstance(z.func, ast.Attribute)
+                                                       and z.func.attr == "tell" and norm.deep_canon(z.func.value, f.node) == P)]
+                    use = [y for y in g.nodes if has(y, lambda z: z is x)]
+                    moves = [y for y in g.nodes if y not in use and has(
+                        y, lambda z: isinstance(z, ast.Call) and isinstance(z.func, ast.Attribute)
+                        and z.func.attr in ("write", "seek", "writelines") and norm.deep_canon(z.func.value, f.node) == P)]
+                    for t in tells:
+                        if t in use:
+                            continue
+                        for m in moves:
+                            p1 = cfgmod.find_path(g, t, lambda y: y is m)
+                            p2 = p1 and cfgmod.find_path(g, m, lambda y: y in use, avoid_pred=lambda y: y in tells)
+                            if p1 and p2:
+                                ok = False
+                                detail = "the buffer is moved between reading its cursor and cutting its value"
+                                path = cfgmod.path_text([t] + p1 + p2)
+                ctx.ob(f, ok, "getvalue() of the rewound buffer %s is cut at its cursor" % P, detail=detail,
+                       loc=ctx.nodeloc(f, x), path=path)
+    if n == 0:
+        ctx.note("no class keeps an in-memory buffer attribute any more")
+        ctx.ob("whoosh", True, "no reusable in-memory buffers to bound")
+
+
+@rule("C20", "R11", "K6", "every lookup in a table of document-number offsets finds the last offset that is <= the number",
+      min_instances=4, also=("C01", "C08", "C10"),
+      clause="Multi-segment readers, the column reader over sub-readers, the writer's deletion routing and MultiIdSet keep a sorted list of "
+             "first document numbers and locate the part that holds document n by bisection. All siblings must use the one correct "
+             "form `bisect_right(offsets, n) - 1` (optionally clamped with max(0, .)): bisect_left sends a part's first document to the "
+             "part before it, and a missing `- 1` or a clamp from below by the last index sends every document to the wrong part. "
+             "Sibling agreement over the shape of the expression; the arithmetic on the found part is not decided here.")
+def c20_r11(ctx):
+    prog = ctx.prog
+    n = 0
+    for f in sorted(prog.functions.values(), key=lambda f: f.qualname):
+        if f.module.name.startswith(("whoosh.lang", "whoosh.support")):
+            continue
+        calls = [x for x in ast.walk(f.node) if isinstance(x, ast.Call) and
+                 (getattr(x.func, "id", None) or getattr(x.func, "attr", None)) in ("bisect_left", "bisect_right", "bisect")
+                 and len(x.args) >= 2]
+        if not calls:
+            continue
+        parents = {}
+        for p in ast.walk(f.node):
+            for ch in ast.iter_child_nodes(p):
+                parents[id(ch)] = p
+        for x in calls:
+            table = norm.deep_canon(x.args[0], f.node)
+            if "offset" not in table.lower():
+                continue
+            n += 1
+            ctx.saw(f)
+            fn = getattr(x.func, "id", None) or x.func.attr
+            par = parents.get(id(x))
+            minus1 = isinstance(par, ast.BinOp) and isinstance(par.op, ast.Sub) and par.left is x \
+                and isinstance(par.right, ast.Constant) and par.right.value == 1
+            detail = ""
+            ok = fn in ("bisect_right", "bisect") and minus1
+            if fn == "bisect_left":
+                detail = "bisect_left(%s, n) puts a part's first document before its own offset" % table
+            elif not minus1:
+                detail = "bisect_right(%s, n) is the index after the part; the lookup must subtract 1" % table
+            else:
+                outer = parents.get(id(par))
+                if isinstance(outer, ast.Call) and getattr(outer.func, "id", None) in ("max", "min"):
+                    others = [a for a in outer.args if a is not par]
+                    good = outer.func.id == "max" and len(others) == 1 and isinstance(others[0], ast.Constant) and others[0].value == 0
+                    if not good:
+                        ok = False
+                        detail = "the found index is clamped with `%s`: only max(0, .) keeps it" % norm.canon(outer)
+            ctx.ob(f, ok, "the part of document n is bisect_right(%s, n) - 1" % table, detail=detail, loc=ctx.nodeloc(f, x))
+    if n == 0:
+        raise AnalysisError("no offset-table lookup found")
+
+
+@rule("C20", "R12", "K4", "element k of an on-disk position index is addressed at base + k * (size of the array's typecode)",
+      min_instances=2,
+      clause="OrderedHashReader.closest_key_pos and FieldedOrderedHashReader.closest_term_pos binary-search an array of key positions "
+             "that the writer dumped with array.tofile(); element k lies at base + k * struct.calcsize(typecode). In every "
+             "`base + k * s` handed to the position getter, s must be bound to struct.calcsize(...) of the recorded typecode (directly "
+             "or through an attribute bound that way) -- in particular not to the element count, which the same tuple also carries.")
+def c20_r12(ctx):
+    prog = ctx.prog
+    n = 0
+    for cname, mname in (("filedb.filetables.OrderedHashReader", "closest_key_pos"),
+                         ("filedb.filetables.FieldedOrderedHashReader", "closest_term_pos")):
+        f = prog.method(cname, mname, inherited=False)
+        ctx.saw(f)
+        cls = prog.cls(cname)
+        attrs = self_attr_assignments(prog, cls)
+
+        def resolved(e):
+            t = norm.deep_canon(e, f.node)
+            if t.startswith("self.") and t[5:] in attrs:
+                return " | ".join(norm.deep_canon(v, g.node) for g, v, _st in attrs[t[5:]] if v is not None)
+            return t
+        found = False
+        for call in [x for x in ast.walk(f.node) if isinstance(x, ast.Call)]:
+            for a in call.args:
+                a2 = norm.inline_defs(a, f.node) if not isinstance(a, ast.BinOp) else a
+                if not (isinstance(a2, ast.BinOp) and isinstance(a2.op, ast.Add)):
+                    continue
+                for side in (a2.left, a2.right):
+                    if isinstance(side, ast.BinOp) and isinstance(side.op, ast.Mult):
+                        found = True
+                        n += 1
+                        texts = [resolved(side.left), resolved(side.right)]
+                        ok = any("calcsize(" in t for t in texts)
+                        ctx.ob(f, ok, "`%s`: the stride is the item size of the index typecode" % norm.canon(a2),
+                               detail="" if ok else "neither factor is struct.calcsize(typecode): %s" % " * ".join(texts),
+                               loc=ctx.nodeloc(f, call))
+        if not found:
+            ctx.note("%s.%s no longer addresses index elements by hand" % (cname, mname))
+            ctx.ob(f, True, "no hand-computed element address")
+            n += 1
